@@ -8,6 +8,7 @@ ROOT = os.path.dirname(os.path.dirname(os.path.abspath(__file__)))
 
 def run(prop, pcfg, repo, scratch, seed, cfg):
     finders = list(replay.FINDERS.get(prop, []))
+    if pcfg.get("units"): finders.append(("prelude_check", []))     # bounded cross-check of the trusted prelude vs. the real crates
     out = {"failures": [], "undecided": [], "bounded": []}
     if not finders: return [out]
     ok, err = replay.build(repo, scratch, [b for b, _ in finders])
@@ -32,5 +33,5 @@ def run(prop, pcfg, repo, scratch, seed, cfg):
                 out["failures"].append({"unit": "replay:" + b, "function": b, "message": "bounded cross-check found a failing input on the real crate",
                                         "clause": last[:600], "site": " ".join(args), "tags": [prop],
                                         "witness": {"found": True, "finder": b, "args": args, "input": last[:3000]}})
-            if b == "c16_interleave": break
+            if b in ("c16_interleave", "prelude_check"): break
     return [out]
